@@ -1811,6 +1811,10 @@ def _push_not_inwards(tree):
                 return self.visit(m)
             return n
     T().visit(tree)
+    from .au import flatten_filter_generator
+    for c in ast.walk(tree):
+        if isinstance(c, ast.comprehension):
+            flatten_filter_generator(c)
     ast.fix_missing_locations(tree)
 
 
